@@ -41,7 +41,10 @@ PrefixOK(s) == \A j \in 1..Len(s) :
                  Cardinality({x \in 1..j : s[x] = "ret"}) <= Cardinality({x \in 1..j : s[x] = "enter"})
 Opens(s) == Cardinality({x \in 1..Len(s) : s[x] = "enter"}) - Cardinality({x \in 1..Len(s) : s[x] = "ret"})
 Close(s) == s \o [i \in 1..Opens(s) |-> "ret"]
-ScriptSet == {Close(s) : s \in {q \in UNION {[1..n -> Ops] : n \in 0..MaxLen} : PrefixOK(q)}}
+(* (with several threads, where every interleaving is explored, only the scripts that are balanced as written) *)
+ScriptSet == IF Cardinality(Threads) = 1
+             THEN {Close(s) : s \in {q \in UNION {[1..n -> Ops] : n \in 0..MaxLen} : PrefixOK(q)}}
+             ELSE {s \in UNION {[1..n -> Ops] : n \in 0..MaxLen} : WellBracketed(s)}
 
 Init == /\ Scripts \in [Threads -> ScriptSet]
         /\ lvlog = [t \in Threads |-> <<>>]
